@@ -26,7 +26,7 @@ latest sid the server issued to transport T on namespace ns"):
       ['sdisc', sid, ns]: issued right after the emit, same coroutine
   ['rooms', SID, ns]
   ['save_session', SID, ns, value] ['get_session', SID, ns]
-  ['session_block', SID, ns, updates]
+  ['session_block', SID, ns, updates, [fresh_session, more_updates]?]
   ['call', token, SID, ns, data, timeout, script]
 """
 import asyncio
@@ -479,8 +479,9 @@ class Runner:
                 res['ret'] = d.api('save_session', self.sid_of(op[1]),
                                    op[3], namespace=op[2])
             elif kind == 'session_block':
-                res['ret'] = self._session_block(self.sid_of(op[1]), op[2],
-                                                 op[3])
+                res['ret'] = self._session_block(
+                    self.sid_of(op[1]), op[2], op[3],
+                    op[4] if len(op) > 4 else None)
             elif kind == 'call':
                 res.update(self._call(op))
             elif kind == 'session_nested':
@@ -691,18 +692,29 @@ class Runner:
             out['_call_frames'] = {T: list(self._held)}
         return out
 
-    def _session_block(self, sid, ns, updates):
+    def _session_block(self, sid, ns, updates, then=None):
+        """then = [fresh_session, more_updates]: inside the block, after the
+        updates, something else (a helper, another handler) saves a fresh
+        session for the client; the block then modifies its session
+        further.  What the block holds is what is persisted at its exit."""
         d = self.d
         if d.is_async:
             async def blk():
                 async with self.sio.session(sid, namespace=ns) as s:
                     before = dict(s)
                     s.update(updates)
+                    if then is not None:
+                        await self.sio.save_session(sid, dict(then[0]),
+                                                    namespace=ns)
+                        s.update(then[1])
                     return before
             return d.run(blk())
         with self.sio.session(sid, namespace=ns) as s:
             before = dict(s)
             s.update(updates)
+            if then is not None:
+                self.sio.save_session(sid, dict(then[0]), namespace=ns)
+                s.update(then[1])
             return before
 
     def _session_nested(self, sid, ns, a1, b, a2, raises):
